@@ -49,7 +49,8 @@ func (av AnyValue) AsInt() (int, error) {
 	case int:
 		return v, nil
 	case string:
-		res, err := strconv.ParseInt(v, 10, 64)
+		// bitSize 0 即 int 的位数：在 32 位平台上超出 int 范围的数字会报错，而不是被截断
+		res, err := strconv.ParseInt(v, 10, 0)
 		return int(res), err
 	}
 	return 0, errs.NewErrInvalidType("int", av.Val)
@@ -84,7 +85,7 @@ func (av AnyValue) AsUint() (uint, error) {
 	case uint:
 		return v, nil
 	case string:
-		res, err := strconv.ParseUint(v, 10, 64)
+		res, err := strconv.ParseUint(v, 10, 0)
 		return uint(res), err
 	}
 	return 0, errs.NewErrInvalidType("uint", av.Val)
